@@ -6,6 +6,7 @@ package conditions
 //
 //@ func GetIndexForConditionType
 //@   pure
+//@   reads *status, elems(status.Conditions)
 //@   ensures nil-status: status == nil ==> result == 0 - 1
 //@   ensures range: result == 0 - 1 || (0 <= result && result < len(status.Conditions) && status.Conditions[result].Type == t)
 //@   ensures absent: result == 0 - 1 && status != nil ==> forall i int :: 0 <= i && i < len(status.Conditions) ==> status.Conditions[i].Type != t
